@@ -1,2 +1,3 @@
 //! shared helpers of the verification harness
 pub mod corpus;
+pub mod proj;
